@@ -144,6 +144,19 @@ solved_t solve(const prog_t& P, const start_t& start, const int max_iters = -1)
     {
         solver.parameter("solver::max_iters") = max_iters;
     }
+    // the solver object has a history in half of the cases (derived from the program's data): it solved another small program
+    // before (min x1 + 2 x2 s.t. x1 + x2 = 1, x >= 0), which must not influence the solve below
+    if ((static_cast<long long>(std::floor(std::fabs(P.c(0)) * 1e6)) % 2) == 1)
+    {
+        nano::vector_t c0(2), b0(1), h0(2);
+        nano::matrix_t A0(1, 2), G0(2, 2);
+        c0(0) = 1.0, c0(1) = 2.0;
+        A0(0, 0) = 1.0, A0(0, 1) = 1.0, b0(0) = 1.0;
+        G0(0, 0) = -1.0, G0(0, 1) = 0.0, G0(1, 0) = 0.0, G0(1, 1) = -1.0, h0(0) = 0.0, h0(1) = 0.0;
+        auto warmup = nano::program::linear_program_t{c0};
+        warmup.constrain(nano::program::make_equality(A0, b0), nano::program::make_inequality(G0, h0));
+        (void)solver.solve(warmup, logger);
+    }
     solved_t   out;
     const auto strict = [&](const VectorXd& x0) { return P.G.rows() == 0 || (P.G * x0 - P.h).maxCoeff() < 0.0; };
     if (P.lp && !P.as_qp)
